@@ -285,8 +285,7 @@ def _helpers(repo, rep):
     """Position-preserving helpers of parser.py"""
     for name in ("groups", "groupdict"):
         f = repo.func("chameleon.parser." + name)
-        text = " ".join(src(s) for s in ast.walk(f.node)
-                        if isinstance(s, ast.stmt))
+        text = L.text(f.node)
         spans = [n for n in ast.walk(f.node) if isinstance(n, ast.Call)
                  and src(n.func) == "m.span"]
         slices = [n for n in ast.walk(f.node) if isinstance(n, ast.Subscript)
@@ -304,14 +303,12 @@ def _helpers(repo, rep):
                   "from the token by the group's span (position kept)" % name,
                   construct="span-slice:" + name, where=L.where(f))
     f = repo.func("chameleon.parser.substitute")
-    text = " ".join(src(s) for s in ast.walk(f.node)
-                    if isinstance(s, ast.stmt))
+    text = L.text(f.node)
     rep.check("token.pos" in text and "token.source" in text, "R11.2",
               f.qualname, "substitute keeps the token's position and source",
               construct="substitute", where=L.where(f))
     f = repo.func("chameleon.exc.TemplateError.__init__")
-    text = " ".join(src(s) for s in ast.walk(f.node)
-                    if isinstance(s, ast.stmt))
+    text = L.text(f.node)
     rep.check("if not isinstance(token, Token): token = Token(token, 0)"
               in text, "R11.4", f.qualname, "a plain str is coerced to a "
               "Token at offset 0 (so a lost position shows as offset 0)",
@@ -643,7 +640,7 @@ def _stamp(repo, rep):
                            and "self.filename" in s for s in body) and \
                             isinstance(h.body[-1], ast.Raise) and \
                             h.body[-1].exc is None:
-                        covered = " ".join(src(s) for s in t.body)
+                        covered = L.text(t, body_only=True)
                         ok = "self._compile(" in covered
     rep.check(ok, "R11.4", f.qualname, "every TemplateError raised while "
               "compiling gets the template's file name and is re-raised "
